@@ -23,9 +23,10 @@ EXPLANATION = (
     "one is never), the sequencer's admission predicate over all leaf shapes and that it selects a suffix free of "
     "bounded leaves on every child list up to the bound, the repetition guard in finalize, the discarded-terms branch "
     "of fold, the identical delegation of Glob and Any, and (upper) that no range operation loses an upper bound the "
-    "true interval has (same grid as C10.range).")
+    "true interval has (same grid as C10.range).  "
+    "(text) ~2 800 alternations whose alternatives are alternations themselves (exhaustive, non-exhaustive and mixed inner branches in every arrangement, bare and behind a prefix), taken through the parser: a verdict `always` is compared with the language of the emitted program as in (sound).")
 RULES = ("C09.sound (TABLE on a catalogue: verdict vs. language), C09.verdict (TABLE), C09.admit + C09.suffix (EFFECT), "
-         "C09.repeat (TABLE), C09.fold (TABLE), C09.sibling (SIBLING), C09.upper (TABLE on a grid)")
+         "C09.repeat (TABLE), C09.fold (TABLE), C09.sibling (SIBLING), C09.upper (TABLE on a grid), C09.text (TABLE on a text catalogue: nested alternations, verdict vs. language)")
 
 WHEN = "query::When"
 DT = "token::variance::invariant::term::DisjunctiveTerm"
